@@ -805,6 +805,18 @@ def _(it, a, info):
     return z3.simplify(z3.And(z3.UGE(s.len, n), *[s.at(s.len - n + i) == ch for i, ch in enumerate(pc)]))
 
 
+@model('slice::ends_with', 'slice::starts_with', 'Vec::ends_with', 'Vec::starts_with')
+def _(it, a, info):
+    s = as_slice(it, a[0])
+    p = as_slice(it, a[1])
+    n = conc(p.len)
+    if n is None:
+        raise Unsupported('slice::%s with a pattern of symbolic length' % info['method'])
+    if info['method'] == 'ends_with':
+        return z3.simplify(z3.And(z3.UGE(s.len, n), *[s.at(s.len - n + i) == p.at(i) for i in range(n)]))
+    return z3.simplify(z3.And(z3.UGE(s.len, n), *[s.at(i) == p.at(i) for i in range(n)]))
+
+
 @model('str::contains')
 def _(it, a, info):
     s = as_slice(it, a[0])
@@ -907,9 +919,22 @@ def split_next(it, sp):
     return Some(r)
 
 
-@model('<Split as Iterator>::filter_map', 'Iterator::filter_map', 'Iterator::map', 'Iterator::filter')
+@model('<Split as Iterator>::filter_map', 'Iterator::filter_map', 'Iterator::map', 'Iterator::filter', 'Iterator::flat_map')
 def _(it, a, info):
-    return Opaque('Adapter', inner=a[0], f=a[1], how=info['method'])
+    return Opaque('Adapter', inner=a[0], f=a[1], how=info['method'], cur=None)
+
+
+@model('Iterator::find_map')
+def _(it, a, info):
+    src = a[0] if isinstance(a[0], Ref) else Ref(Cell(a[0]))
+    while True:
+        x = iter_next(it, src)
+        if x.variant == 'None':
+            return NONE()
+        r = it.call_callable(a[1], [x.fields[0]])
+        if r.variant == 'Some':
+            return r
+        it.ctx.tick(10)
 
 
 def iter_next(it, itv):
@@ -918,6 +943,19 @@ def iter_next(it, itv):
     if isinstance(v, Opaque):
         if v.kind == 'Split':
             return split_next(it, v)
+        if v.kind == 'Adapter' and v.how == 'flat_map':
+            while True:
+                if v.cur is not None:
+                    y = iter_next(it, v.cur)
+                    if y.variant == 'Some':
+                        return y
+                    v.cur = None
+                x = iter_next(it, v.inner)
+                if x.variant == 'None':
+                    return x
+                inner = it.call_callable(v.f, [x.fields[0]])
+                v.cur = inner if isinstance(inner, Ref) else Ref(Cell(inner))
+                it.ctx.tick(10)
         if v.kind == 'Adapter':
             while True:
                 x = iter_next(it, v.inner)
@@ -1006,6 +1044,36 @@ def _(it, a, info):
                 return Some(bv(idx))
         idx += 1
         it.ctx.tick(10)
+
+
+class WindowsIter(Opaque):
+    """<[u8]>::windows(n) over a byte slice of concrete length"""
+
+    def __init__(self, s, n, total):
+        Opaque.__init__(self, 'Windows')
+        self.s, self.n, self.total, self.pos = s, n, total, 0
+
+    def iter_next(self, it):
+        if self.pos + self.n <= self.total:
+            w = Slice(self.s.buf, z3.simplify(self.s.off + self.pos), bv(self.n), self.s.is_str)
+            self.pos += 1
+            return Some(w)
+        return NONE()
+
+
+@model('slice::windows', 'Vec::windows')
+def _(it, a, info):
+    v = deref(it, a[0])
+    if not isinstance(v, (Slice, Buf)):
+        raise Unsupported('windows on %r' % (v,))
+    s = as_slice(it, v)
+    n = conc(a[1])
+    total = conc(s.len)
+    if n is None or total is None:
+        raise Unsupported('windows over a slice of symbolic length')
+    if n == 0:
+        raise RustPanic('window size must be non-zero', tuple(it.callstack))
+    return WindowsIter(s, n, total)
 
 
 @model('slice::iter', 'slice::iter_mut', 'Vec::iter', 'Vec::iter_mut')
